@@ -2,6 +2,7 @@ import DaskModel.Model.Structural
 import DaskModel.Lemmas.StructuralLemmas
 import DaskModel.Lemmas.PadLemmas
 import DaskModel.Lemmas.ShufflePlanLemmas
+import DaskModel.Lemmas.ReshapeGroupsLemmas
 import DaskModel.Generated.ChunkTolerance
 /-!
 # C24 — structural array operations equal NumPy (theorems)
@@ -12,7 +13,7 @@ tile, tril/triu, diff, statistics/edge/constant/linear_ramp pads, the full `resh
 validated against NumPy by harness/props/c24.py).
 -/
 namespace Dask.C24
-open Dask.Chunks Dask.Structural
+open Dask.Chunks Dask.Structural Dask.Reshape
 
 /-- **concat_den** (one axis): the blocks `concatenate` wires together, in output order, are the
     chunking `sum(chunks_i, ())` of the concatenated data. -/
@@ -404,5 +405,41 @@ example : (takeBlocks [2, 2] (splitBy [2, 2] [10, 11, 12, 13]) [0, 2, 1, 3] 2 5 
     = .ok [[10, 12], [11, 13]] := by decide
 example : (takeBlocks [2, 2] (splitBy [2, 2] [10, 11, 12, 13]) [0, 1, 2, 3] 2 5 4 : Except ShErr (List (List Nat)))
     = .ok [[10, 11], [12, 13]] := by decide
+
+
+/-! ### the general `reshape`: `reshape_rechunk`'s plan and the block-by-block `M.reshape` graph
+
+`reshape` rechunks the input to `reshape_rechunk`'s `result_inchunks` and then maps the `k`-th input block (blocks in
+`itertools.product` order) to the `k`-th output block with `M.reshape(block, shape_k)`; NumPy's reshape of one block keeps
+its C-order data. `blocksFlat m dims flat` is the C-order data of every block of the array with C-order data `flat` chunked
+`dims` (elements = runs of `m` entries). The plan is right iff `blocksFlat 1 ri flat = blocksFlat 1 ro flat`. -/
+
+/-- **reshape_blocks_den**: for every pair of chunk lists that decomposes (`groups`, recorded by the walk) into axis groups
+    which on both sides are *contiguous* (all-ones axes, one arbitrary axis, single-chunk axes) and have the same block
+    sizes, block `k` of the input holds exactly the data of block `k` of the reshaped array -- any number of axes, any
+    chunk sizes, any data. (`groupsOK` is evaluated by the harness on every real output of `reshape_rechunk`;
+    `reshape_rechunk_groupsOK` below proves it for the model.) -/
+theorem reshape_blocks_den {α} (ri ro : List (List Nat)) (groups : List (Nat × Nat)) (flat : List α)
+    (h : groupsOK ri ro groups = true) (hl : flat.length = size ri) :
+    blocksFlat 1 ri flat = blocksFlat 1 ro flat ∧ size ri = size ro ∧ nBlocks ri = nBlocks ro :=
+  ⟨blocksFlat_groupsOK 1 groups ri ro flat h (by omega), groupsOK_size groups ri ro h⟩
+
+/-- the two 2-d plans of the earlier theorems are instances: whole rows per block … -/
+example : groupsOK [[2, 1], [3]] [[6, 3]] [(2, 1)] = true := by decide
+/-- … and one row per block ("moving blocks around") -/
+example : groupsOK [[1, 1], [2, 1]] [[2, 1, 2, 1]] [(2, 1)] = true := by decide
+/-- 3 axes -> 3 axes: a size-1 output axis, an untouched axis, a merge of two axes -/
+example : groupsOK [[2, 2], [1, 1, 1], [2]] [[1], [2, 2], [2, 2, 2]] [(0, 1), (1, 1), (2, 1)] = true := by decide
+example : blocksFlat 1 [[1, 1], [2, 1]] [0, 1, 2, 3, 4, 5] = [[0, 1], [2], [3, 4], [5]] := by decide
+example : blocksFlat 1 [[2], [2, 1]] [0, 1, 2, 3, 4, 5] = [[0, 1, 3, 4], [2, 5]] := by decide
+/-- the counter-example in `_smooth_chunks`' comment: chunks ((2,2),(2,1)) -> ((4,2,4,2),) has equal block sizes but is not
+    contiguous, and the blocks do differ -/
+example : groupsOK [[2, 2], [2, 1]] [[4, 2, 4, 2]] [(2, 1)] = false := by decide
+example : blocksFlat 1 [[2, 2], [2, 1]] (List.range 12) ≠ blocksFlat 1 [[4, 2, 4, 2]] (List.range 12) := by decide
+example : reshapeRechunk [4, 3] [12] [[2, 2], [2, 1]] = .ok ([some [1, 1, 1, 1], some [3]], [some [3, 3, 3, 3]], [(2, 1)]) := by decide
+example : reshapeRechunk [2, 3, 4] [6, 4] [[1, 1], [2, 1], [4]]
+    = .ok ([some [1, 1], some [2, 1], some [4]], [some [2, 1, 2, 1], some [4]], [(2, 1), (1, 1)]) := by decide
+example : reshapeRechunk [12] [2, 3, 2] [[5, 7]] = .ok ([some [6, 6]], [some [1, 1], some [3], some [2]], [(1, 3)]) := by decide
+example : reshapeRechunk [4, 5, 6] [6, 5, 4] [[4], [5], [6]] = .error .notImpl := by decide
 
 end Dask.C24
